@@ -92,7 +92,7 @@ PROPS = {
                     'EvalPanic::parse and build (panic record wiring to outputs): bounded differential search only'],
     ),
     'C16': dict(
-        units=['regcirc'],
+        units=['regcirc', 'ssacirc'],
         deps=[],
         kani=[
             dict(name='c16_register_eval_safe_2', fn='register_circuit::Circuit::{validate,eval}', max_items=2, label='bounded',
@@ -105,15 +105,22 @@ PROPS = {
         level='proof',
         technique='Verus contracts on the real register_circuit::Circuit::validate / eval (and the Index<Reg> / IndexMut<Reg> impls they use): validate()==Ok '
                   'implies the well-definedness predicate, which is the precondition under which every index operation of eval is proved in bounds; '
-                  'for SSA circuits Kani-free bounded stand-in: exhaustive small-scope enumeration on the real code',
+                  'the same on the real circuit::Circuit::validate / eval / wires_len (SSA), with the impl-Iterator returned by Circuit::wires() under a '
+                  'trusted contract (R24); eval additionally proved to return the value of each output wire; exhaustive small-scope enumeration '
+                  'on the real code as a cross-check',
         claim='Register circuits - deductive proof (Verus/Z3), for every circuit value however obtained (all sizes, all register / party / input indices): '
               'validate() returns Ok only if every instruction writes a register below max_reg_count, reads only registers below max_reg_count that an '
               'earlier instruction has written, every input instruction names an existing bit of an existing party, there is an output, and every '
               'output register exists and has been written (valid_spec); under valid_spec and inputs of the declared shape, eval never indexes out '
               'of bounds, never reaches one of its panics, and returns exactly one bit per output (Verus proves the precondition of every index '
               'operation, including the user-defined Index<Reg> / IndexMut<Reg> impls, extracted too); validate itself does not panic. '
-              'SSA circuits - BOUNDED, not a proof: Circuit::validate / eval iterate through impl-Iterator chains (wires().enumerate(), iter().map(..).collect()) '
-              'outside the supported subset, and CBMC runs out of memory on them (measured); stand-in below. Additionally (bounded, kept as a cross-check '
+              'SSA circuits - deductive proof (Verus/Z3, unit ssacirc) for every circuit whose declared size fits the machine word twice '
+              '(2 * sum(input_gates) + |gates| <= usize::MAX; validate() itself adds wires_len() and the input sum, and no inputs of a larger declared '
+              'shape exist in memory): validate() returns Ok only if every gate reads earlier wires only, there is an output and every output is a '
+              'wire (valid_spec); wires_len() is the number of wires; under valid_spec and inputs of the declared shape eval never indexes out of '
+              'bounds, never unwraps an undefined wire (Verus proves the precondition of every Option::unwrap), never reaches one of its panics, '
+              'returns one bit per output, and output k is the value of wire output_gates[k] under the gate semantics (ssa_val). ASSUMED for this: '
+              'the contract of Circuit::wires() (sum(input_gates) input wires, then the gates in order). Additionally (bounded, kept as a cross-check '
               'of the register proof): Kani/CBMC proves for every register circuit with <= 2 instructions, <= 2 parties x '
               '<= 2 bits, <= 2 outputs and full-range u32 register/party/input indices that validate()==Ok implies (a) eval on inputs of the '
               'declared shape does not panic and returns one bit per output, (b) the executable well-definedness predicate valid_spec_reg '
@@ -124,11 +131,14 @@ PROPS = {
               'reference interpreter that refuses undefined reads.',
         note='Trusted (Verus part): derived PartialEq / PartialOrd of Reg(u32) compare the field (external_body impls); Iterator::all for `== 0` modelled by a '
              'verified helper (R15); map + collect written as the loop it denotes (R16); `as u32` truncation is not above the original value (proved by '
-             'bit_vector); vstd Vec / slice / iterator specs; rules R0, R1, R3, R15-R18. Trusted (bounded part): Kani/CBMC (Rust->GOTO translation, no termination checking), the reference interpreters and valid_spec_reg in '
+             'bit_vector); vstd Vec / slice / iterator specs; rules R0, R1, R3, R15-R18. Unit ssacirc: contract of wires_of (the collected Circuit::wires() iterator, R24) ASSUMED; '
+             'Iterator::sum as a verified loop with a no-overflow precondition (R25); the shadowing vector of slice iterators in eval dropped (R26); `+= p` with p a reference '
+             'dereferenced (R27); Gate and Wire given derive(Clone, Copy) in the verified text (the index loop replacing the iterator copies wires out of the vector). Trusted (bounded part): Kani/CBMC (Rust->GOTO translation, no termination checking), the reference interpreters and valid_spec_reg in '
              'kani/src/decode.rs. validate() panicking by itself (max_reg_count == 0 with instructions) is outside the statement and excluded by '
              'an explicit assume in the harness. "Validation accepts every compiler / conversion output" is checked under C10 (conversion) only.',
-        title='a validated register circuit can be evaluated safely (proved for all circuits); SSA circuits by exhaustive small-scope enumeration (bounded)',
-        unverified=['SSA Circuit::validate / eval (impl-Iterator chains; Kani out of memory): enumeration only, bounded',
+        title='a validated register or SSA circuit can be evaluated safely (proved for all circuits; SSA modulo the assumed contract of Circuit::wires())',
+        unverified=['Circuit::wires() (impl Iterator chain of flat_map / map / chain closures): contract assumed, cross-checked by the enumeration only',
+                    'SSA circuits with 2 * sum(input_gates) + |gates| > usize::MAX (validate overflows: panics under overflow checks)',
                     '"validation accepts every compiler / conversion output": checked under C10 (conversion) and by the enumeration only',
                     'Evaluator::run pre-checks of party count and bit counts'],
     ),
